@@ -10,6 +10,7 @@ use crate::tree::class::ClassFile;
 use crate::tree::field::Field;
 use crate::tree::method::code::{Code, Instruction, Label, Loadable};
 use crate::tree::method::Method;
+use crate::visitor::method::code::{StackMapData, VerificationTypeInfo};
 use crate::tree::module::Module;
 use crate::tree::record::RecordComponent;
 use crate::tree::type_annotation::{TargetInfoClass, TargetInfoCode, TargetInfoField, TargetInfoMethod, TypeAnnotation, TypePath, TypePathKind};
@@ -1077,6 +1078,7 @@ fn write_code<'a, 'b: 'a>(writer: &mut impl ClassWrite, code: &'b Code, pool: &m
 				wide.insert(unwritten.instruction_index);
 
 				labels.next_attempt();
+				frames.clear();
 				w = Vec::with_capacity(w.len());
 				continue 'a;
 			}
@@ -1107,7 +1109,70 @@ fn write_code<'a, 'b: 'a>(writer: &mut impl ClassWrite, code: &'b Code, pool: &m
 	let mut buffer = Vec::new();
 
 	if !frames.is_empty() {
-		// TODO: write stack map table
+		attribute_count += 1;
+		write_attribute(&mut buffer, pool, attribute::STACK_MAP_TABLE, |w, pool| {
+			w.write_usize_as_u16(frames.len()).context("too many stack map frames")?;
+			let mut previous: Option<u16> = None;
+			for &(opcode_pos, frame) in &frames {
+				// The first frame stores its bytecode offset, every later one the distance to the frame before it minus one.
+				let offset_delta = match previous {
+					None => opcode_pos,
+					Some(previous) => opcode_pos.checked_sub(previous).and_then(|x| x.checked_sub(1))
+						.with_context(|| anyhow!("two stack map frames at bytecode offset {opcode_pos}"))?,
+				};
+				previous = Some(opcode_pos);
+
+				match frame {
+					StackMapData::Same => {
+						if let Some(frame_type) = u8::try_from(offset_delta).ok().filter(|&x| x < 64) {
+							w.write_u8(frame_type)?;
+						} else {
+							w.write_u8(251)?;
+							w.write_u16(offset_delta)?;
+						}
+					},
+					StackMapData::SameLocals1StackItem { stack } => {
+						if let Some(frame_type) = u8::try_from(offset_delta).ok().filter(|&x| x < 64) {
+							w.write_u8(64 + frame_type)?;
+						} else {
+							w.write_u8(247)?;
+							w.write_u16(offset_delta)?;
+						}
+						write_verification_type_info(w, pool, stack, &labels)?;
+					},
+					&StackMapData::Chop { k } => {
+						if !(1..=3).contains(&k) {
+							bail!("a chop frame must chop 1 to 3 locals, got {k}");
+						}
+						w.write_u8(251 - k)?;
+						w.write_u16(offset_delta)?;
+					},
+					StackMapData::Append { locals } => {
+						if !(1..=3).contains(&locals.len()) {
+							bail!("an append frame must append 1 to 3 locals, got {}", locals.len());
+						}
+						w.write_u8(251 + locals.len() as u8)?;
+						w.write_u16(offset_delta)?;
+						for local in locals {
+							write_verification_type_info(w, pool, local, &labels)?;
+						}
+					},
+					StackMapData::Full { locals, stack } => {
+						w.write_u8(255)?;
+						w.write_u16(offset_delta)?;
+						w.write_usize_as_u16(locals.len()).context("too many locals in a stack map frame")?;
+						for local in locals {
+							write_verification_type_info(w, pool, local, &labels)?;
+						}
+						w.write_usize_as_u16(stack.len()).context("too many stack items in a stack map frame")?;
+						for item in stack {
+							write_verification_type_info(w, pool, item, &labels)?;
+						}
+					},
+				}
+			}
+			Ok(())
+		})?;
 	}
 
 	if let Some(line_number_table) = &code.line_numbers {
@@ -1185,6 +1250,26 @@ fn write_code<'a, 'b: 'a>(writer: &mut impl ClassWrite, code: &'b Code, pool: &m
 	writer.write_u8_slice(&buffer)?;
 
 	Ok(())
+}
+
+fn write_verification_type_info<'a, 'b: 'a>(writer: &mut impl ClassWrite, pool: &mut PoolWrite<'a>, info: &'b VerificationTypeInfo, labels: &Labels) -> Result<()> {
+	match info {
+		VerificationTypeInfo::Top => writer.write_u8(0),
+		VerificationTypeInfo::Integer => writer.write_u8(1),
+		VerificationTypeInfo::Float => writer.write_u8(2),
+		VerificationTypeInfo::Double => writer.write_u8(3),
+		VerificationTypeInfo::Long => writer.write_u8(4),
+		VerificationTypeInfo::Null => writer.write_u8(5),
+		VerificationTypeInfo::UninitializedThis => writer.write_u8(6),
+		VerificationTypeInfo::Object(class) => {
+			writer.write_u8(7)?;
+			writer.write_u16(pool.put_class(class)?)
+		},
+		VerificationTypeInfo::Uninitialized(label) => {
+			writer.write_u8(8)?;
+			writer.write_u16(labels.try_get(label)?)
+		},
+	}
 }
 
 fn write_record_component<'a: 'b, 'b>(writer: &mut impl ClassWrite, record_component: &'a RecordComponent, pool: &mut PoolWrite<'b>) -> Result<()> {
